@@ -40,6 +40,14 @@ def _init_exc():
 _init_exc()
 
 
+class ASuper(object):
+    __slots__ = ("obj", "start")
+
+    def __init__(self, obj, start):
+        self.obj = obj
+        self.start = start
+
+
 class Outcome(object):
     __slots__ = ("kind", "exc", "value", "must", "definite", "node", "snap",
                  "depth", "state")
@@ -1037,6 +1045,18 @@ class Interp(object):
                 if v is not None:
                     return v
             return UNK
+        if isinstance(base, ASuper):
+            seen = False
+            for m, c in self.repo.mro(base.obj.mod, base.obj.cnode):
+                if c is base.start:
+                    seen = True
+                    continue
+                if not seen:
+                    continue
+                q = c._qualname + "." + attr
+                if q in m.funcs:
+                    return AFunc(m, m.funcs[q], self_obj=base.obj, cls=c)
+            return UNK
         if isinstance(base, AMod):
             if base.mod is not None:
                 v = self.module_symbol(base.mod, attr)
@@ -1201,6 +1221,8 @@ class Interp(object):
             return self.call_func(f, args, kwargs, st, node)
         if isinstance(f, AClass):
             return self.instantiate(f, args, kwargs, st, node, starred)
+        if isinstance(f, ABuiltin) and f.name == "super":
+            return self.make_super(args, st)
         if isinstance(f, ABuiltin) and f.name.startswith("ffi:"):
             self.event("ffi", f.name[4:], node, args=(args, kwargs))
             return Unknown("int")
@@ -1229,6 +1251,23 @@ class Interp(object):
             if isinstance(a, (dict, list, bytearray)):
                 self.havoc_container(st, a)
         return UNK
+
+    def make_super(self, args, st):
+        """super() / super(Cls, self): proxy that resolves attributes after
+        Cls in the MRO of the object."""
+        obj = None
+        start = None
+        if len(args) == 2 and isinstance(args[0], AClass) and isinstance(args[1], AObj):
+            start, obj = args[0].node, args[1]
+        elif not args:
+            fr = self.frames[-1]
+            obj = st.top().get("self")
+            q = getattr(fr.fn, "_qualname", "")
+            if "." in q and q.rsplit(".", 1)[0] in fr.mod.classes:
+                start = fr.mod.classes[q.rsplit(".", 1)[0]]
+        if not isinstance(obj, AObj) or start is None or obj.cnode is None:
+            return UNK
+        return ASuper(obj, start)
 
     def havoc_container(self, st, obj):
         for f in st.frames:
